@@ -2,7 +2,15 @@ import Srctools.Proofs.C15
 import Srctools.Model.C15File
 import Srctools.Gen.Vtf
 /-!
-# C15 — VTF save/read round trip (property theorems)
+# C15 — VTF save/read round trip: metadata exact, pixels exact up to the format
+
+Property theorems only. Statements are about the model (`Model/C15.lean`, `Model/C15File.lean`);
+`C15_gen_*` tie the model's tables and per-pixel codec expressions to the ones regenerated from the
+current source by `tools/gen_vtf.py`.
+
+The codec theorems quantify over **all** pixels `p` with byte channels (`p.valid`) or all encoded
+words; they are proved through `quant_of_same` / `words_of_same` (Proofs/C15): a verified decision
+procedure on the codec expressions, so `decide` evaluates a closed term and never enumerates pixels.
 -/
 namespace C15
 
@@ -14,5 +22,301 @@ theorem C15_gen_formats : Gen.Vtf.formats = C15.formats := by decide
 /-- The per-pixel expressions symbolically executed from `_py_vtf_readwrite.py`
 (`load_*`, `save_*`, `saveload_rgba`, `decomp565`, `compress565`, `upsample`) are the model's. -/
 theorem C15_gen_codecs : Gen.Vtf.codecs = C15.codecs := by decide
+
+/-- Every format with a saver also has a per-pixel loader with four outputs; the saver writes
+exactly `size / 8` bytes per pixel, the loader reads only those, the format is not block-compressed
+(so `frame_size = size·w·h/8` is the codec's output length). -/
+theorem C15_gen_tables_ok : tablesOK Gen.Vtf.formats Gen.Vtf.codecs = true := by decide
+
+/-- The formats the pure-Python module can write are exactly `writableInds`. -/
+theorem C15_gen_writable :
+    (Gen.Vtf.codecs.filter (·.hasSave)).map (·.ind) = writableInds := by decide
+
+/-- Cython twin, static tie: every per-pixel expression list that could be read out of
+`_cy_vtf_readwrite.pyx` equals the model's, and that covers these 19 formats (all writable ones
+except A8, whose Cython loader uses `memset`). -/
+theorem C15_gen_pyx :
+    (Gen.Vtf.pyxCodecs.all fun (i, l, s) =>
+        l.all (· == (codecOf i).load) && s.all (· == (codecOf i).save)) = true ∧
+    (Gen.Vtf.pyxCodecs.filter fun (_, l, s) => l.isSome && s.isSome).map (·.1)
+      = [0, 1, 2, 3, 4, 5, 6, 9, 10, 11, 12, 16, 17, 18, 19, 21, 22, 23, 26] := by decide
+
+/-- Constants the layout model relies on: header struct format, the literal struct formats used by
+save / read / sheet code, ENVMAP flag, cube sides (SPHERE last, dropped from 7.5), reserved resource
+ids, filter mode values. -/
+theorem C15_gen_consts :
+    Gen.Vtf.headerFmt = C15.headerFmt ∧ Gen.Vtf.saveFmts = C15.saveFmts ∧
+    Gen.Vtf.readFmts = C15.readFmts ∧ Gen.Vtf.sheetFmts = C15.sheetFmts ∧
+    Gen.Vtf.envmap = envmapFlag ∧ Gen.Vtf.cubeSides = C15.cubeSides ∧
+    Gen.Vtf.cubesDropLast = true ∧ Gen.Vtf.sphereCutoff = C15.sphereCutoff ∧
+    Gen.Vtf.resIds = [idLow, idHigh, idSheet] ∧ Gen.Vtf.filters = C15.filters := by decide
+
+/-! ## Codecs: formats that store 8 bits per used channel -/
+
+/-- RGBA8888, ABGR8888, ARGB8888, BGRA8888, UVWQ8888, UVLX8888: every pixel is reproduced exactly. -/
+theorem C15_exact_rgba (i : Nat) (hi : i ∈ [0, 1, 11, 12, 23, 26]) (p : Px) :
+    loadF (codecOf i) (saveF (codecOf i) p) = p := by
+  simp only [List.mem_cons, List.mem_nil_iff, or_false] at hi
+  rcases hi with rfl | rfl | rfl | rfl | rfl | rfl <;> cases p <;> rfl
+
+/-- RGB888, BGR888, BGRX8888: colour exact, alpha reads back opaque. -/
+theorem C15_exact_rgb (i : Nat) (hi : i ∈ [2, 3, 16]) (p : Px) :
+    loadF (codecOf i) (saveF (codecOf i) p) = { p with a := 255 } := by
+  simp only [List.mem_cons, List.mem_nil_iff, or_false] at hi
+  rcases hi with rfl | rfl | rfl <;> cases p <;> rfl
+
+/-- A8 keeps alpha only; UV88 keeps red and green only. -/
+theorem C15_exact_a8_uv88 (p : Px) :
+    loadF (codecOf 8) (saveF (codecOf 8) p) = ⟨0, 0, 0, p.a⟩ ∧
+    loadF (codecOf 22) (saveF (codecOf 22) p) = ⟨p.r, p.g, 0, 255⟩ := by
+  cases p; exact ⟨rfl, rfl⟩
+
+/-! ## Codecs: reduced precision -/
+
+/-- BGRX5551: five bits per colour, alpha ignored. -/
+theorem C15_quant_bgrx5551 (p : Px) (hp : p.valid) :
+    loadF (codecOf 18) (saveF (codecOf 18) p) = ⟨q5 p.r, q5 p.g, q5 p.b, 255⟩ :=
+  quant_of_same (codecOf 18) qE5551x (by decide +kernel) p hp
+
+/-- BGRA5551: five bits per colour, one bit of alpha (`≥ 128` ↦ 255, else 0). -/
+theorem C15_quant_bgra5551 (p : Px) (hp : p.valid) :
+    loadF (codecOf 21) (saveF (codecOf 21) p) = ⟨q5 p.r, q5 p.g, q5 p.b, q1 p.a⟩ :=
+  quant_of_same (codecOf 21) qE5551a (by decide +kernel) p hp
+
+/-- BGRA4444: four bits per channel, the nibble is duplicated. -/
+theorem C15_quant_bgra4444 (p : Px) (hp : p.valid) :
+    loadF (codecOf 19) (saveF (codecOf 19) p) = ⟨q4 p.r, q4 p.g, q4 p.b, q4 p.a⟩ :=
+  quant_of_same (codecOf 19) qE4444 (by decide +kernel) p hp
+
+/-- I8 / IA88: the floor mean of the three colours in all three, alpha opaque / kept. -/
+theorem C15_quant_grey (p : Px) :
+    loadF (codecOf 5) (saveF (codecOf 5) p) = ⟨greyOf p, greyOf p, greyOf p, 255⟩ ∧
+    loadF (codecOf 6) (saveF (codecOf 6) p) = ⟨greyOf p, greyOf p, greyOf p, p.a⟩ := by
+  cases p; exact ⟨rfl, rfl⟩
+
+/-- RGB888_BLUESCREEN / BGR888_BLUESCREEN: a pixel with alpha below 128 (or opaque pure blue, the
+on-disk code for transparency) reads back as transparent black, any other as itself, opaque. -/
+theorem C15_quant_bluescreen (i : Nat) (hi : i = 9 ∨ i = 10) (p : Px) :
+    loadF (codecOf i) (saveF (codecOf i) p) =
+      if p.a < 128 ∨ (p.r = 0 ∧ p.g = 0 ∧ p.b = 255) then ⟨0, 0, 0, 0⟩ else ⟨p.r, p.g, p.b, 255⟩ := by
+  obtain ⟨r, g, b, a⟩ := p
+  rcases hi with rfl | rfl
+  all_goals
+    simp only [loadF, saveF, codecOf, codecs, List.getD_cons_succ, List.getD_cons_zero, loadBlue,
+      saveBlue3, List.map_cons, List.map_nil, E.eval, Px.env, bytesEnv, Px.ofList, R, G, B, A]
+    by_cases ha : a < 128
+    · simp [ha]
+    · by_cases hblue : r = 0 ∧ g = 0 ∧ b = 255
+      · obtain ⟨rfl, rfl, rfl⟩ := hblue; simp [ha]
+      · simp only [ha, if_false, false_or, hblue]
+        have : ¬ ((r = g ∧ g = 0) ∧ b = 255) := fun h => hblue ⟨h.1.1.trans h.1.2, h.1.2, h.2⟩
+        simp [this]
+
+/-- **One statement for the 18 lawful writable formats** (all but RGB565 / BGR565):
+`load (save p) = quant p`. -/
+theorem C15_roundtrip (i : Nat) (hi : i ∈ lawfulInds) (p : Px) (hp : p.valid) :
+    loadF (codecOf i) (saveF (codecOf i) p) = quant i p := by
+  simp only [lawfulInds, List.mem_cons, List.mem_nil_iff, or_false] at hi
+  rcases hi with rfl | rfl | rfl | rfl | rfl | rfl | rfl | rfl | rfl | rfl | rfl | rfl | rfl |
+    rfl | rfl | rfl | rfl | rfl
+  · exact C15_exact_rgba 0 (by decide) p
+  · exact C15_exact_rgba 1 (by decide) p
+  · exact C15_exact_rgb 2 (by decide) p
+  · exact C15_exact_rgb 3 (by decide) p
+  · exact (C15_quant_grey p).1
+  · exact (C15_quant_grey p).2
+  · exact (C15_exact_a8_uv88 p).1
+  · exact C15_quant_bluescreen 9 (.inl rfl) p
+  · exact C15_quant_bluescreen 10 (.inr rfl) p
+  · exact C15_exact_rgba 11 (by decide) p
+  · exact C15_exact_rgba 12 (by decide) p
+  · exact C15_exact_rgb 16 (by decide) p
+  · exact C15_quant_bgrx5551 p hp
+  · exact C15_quant_bgra4444 p hp
+  · exact C15_quant_bgra5551 p hp
+  · exact (C15_exact_a8_uv88 p).2
+  · exact C15_exact_rgba 23 (by decide) p
+  · exact C15_exact_rgba 26 (by decide) p
+
+/-! ## Every stored word is a fixed point: `save (load w) = w` on all 65 536 two-byte values -/
+
+/-- BGRA4444: all 16 bits carry data; decoding then encoding any word gives it back. -/
+theorem C15_words_bgra4444 (x y : Nat) (hx : x < 256) (hy : y < 256) :
+    saveF (codecOf 19) (loadF (codecOf 19) [x, y]) = [x, y] :=
+  words_of_same (codecOf 19) [.var 0, .var 1] (by decide) (by decide +kernel) [x, y] (by simp [hx, hy])
+
+/-- BGRX5551: the top bit of the second byte is not used, everything else is a fixed point. -/
+theorem C15_words_bgrx5551 (x y : Nat) (hx : x < 256) (hy : y < 256) :
+    saveF (codecOf 18) (loadF (codecOf 18) [x, y]) = [x, y &&& 127] :=
+  words_of_same (codecOf 18) [.var 0, .and (.var 1) (.lit 127)] (by decide) (by decide +kernel) [x, y]
+    (by simp [hx, hy])
+
+/-- BGRA5551: all 16 bits carry data. (The alpha bit goes through `255 if b & 0x80 else 0`, which
+is outside the bitwise fragment: that one bit is handled by `alpha_bit`.) -/
+theorem C15_words_bgra5551 (x y : Nat) (hx : x < 256) (hy : y < 256) :
+    saveF (codecOf 21) (loadF (codecOf 21) [x, y]) = [x, y] := by
+  have hb : ∀ b ∈ [x, y], b < 256 := by simp [hx, hy]
+  have henv := bytesEnv_lt [x, y] hb
+  rw [saveF_loadF (codecOf 21) (by decide)]
+  -- first byte: purely bitwise
+  have h0 : E.same ((saveBGRA5551.getD 0 default).subst loadBGRA5551) (.var 0) = true := by decide +kernel
+  -- second byte with the alpha term replaced by `b & 0x80`
+  have h1 : E.same (.or (.or (.and (.var 1) (.lit 128))
+        ((E.and (.shr R 1) (.lit 124)).subst loadBGRA5551)) ((E.shr G 6).subst loadBGRA5551))
+      (.var 1) = true := by decide +kernel
+  have g0 : E.eval (bytesEnv [x, y]) ((saveBGRA5551.getD 0 default).subst loadBGRA5551) = x :=
+    E.eval_eq_of_same _ _ h0 _ henv
+  have e1 := E.eval_eq_of_same _ _ h1 _ henv
+  have ha := alpha_bit y hy
+  have g1 : E.eval (bytesEnv [x, y]) ((saveBGRA5551.getD 1 default).subst loadBGRA5551) = y := by
+    simp only [E.subst, E.eval, saveBGRA5551, loadBGRA5551, load5551rgb, List.getD_cons_succ,
+      List.getD_cons_zero, List.cons_append, List.nil_append, up, bytesEnv, R, G, A] at e1 ha ⊢
+    rw [ha]
+    exact e1
+  show [E.eval (bytesEnv [x, y]) ((saveBGRA5551.getD 0 default).subst loadBGRA5551),
+        E.eval (bytesEnv [x, y]) ((saveBGRA5551.getD 1 default).subst loadBGRA5551)] = [x, y]
+  rw [g0, g1]
+
+/-! ## Storing the stored pixel again changes nothing -/
+
+/-- For every lawful writable format and every pixel: `save (load (save p)) = save p`. -/
+theorem C15_idempotent (i : Nat) (hi : i ∈ lawfulInds) (p : Px) (hp : p.valid) :
+    saveF (codecOf i) (loadF (codecOf i) (saveF (codecOf i) p)) = saveF (codecOf i) p := by
+  simp only [lawfulInds, List.mem_cons, List.mem_nil_iff, or_false] at hi
+  rcases hi with rfl | rfl | rfl | rfl | rfl | rfl | rfl | rfl | rfl | rfl | rfl | rfl | rfl |
+    rfl | rfl | rfl | rfl | rfl
+  · cases p; rfl
+  · cases p; rfl
+  · cases p; rfl
+  · cases p; rfl
+  · -- I8
+    obtain ⟨r, g, b, a⟩ := p
+    show [((r + g + b) / 3 + (r + g + b) / 3 + (r + g + b) / 3) / 3] = [(r + g + b) / 3]
+    congr 1; omega
+  · obtain ⟨r, g, b, a⟩ := p
+    show [((r + g + b) / 3 + (r + g + b) / 3 + (r + g + b) / 3) / 3, a] = [(r + g + b) / 3, a]
+    congr 1; omega
+  · cases p; rfl
+  · rw [C15_quant_bluescreen 9 (.inl rfl)]
+    obtain ⟨r, g, b, a⟩ := p
+    by_cases h : a < 128 ∨ (r = 0 ∧ g = 0 ∧ b = 255)
+    · rw [if_pos h]
+      rcases h with h | ⟨rfl, rfl, rfl⟩
+      · simp [saveF, codecOf, codecs, saveBlue3, E.eval, Px.env, h, R, G, B, A]
+      · by_cases h' : a < 128 <;>
+          simp [saveF, codecOf, codecs, saveBlue3, E.eval, Px.env, h', R, G, B, A]
+    · rw [if_neg h]
+      have h' : ¬ a < 128 := fun x => h (.inl x)
+      simp [saveF, codecOf, codecs, saveBlue3, E.eval, Px.env, h', R, G, B, A]
+  · rw [C15_quant_bluescreen 10 (.inr rfl)]
+    obtain ⟨r, g, b, a⟩ := p
+    by_cases h : a < 128 ∨ (r = 0 ∧ g = 0 ∧ b = 255)
+    · rw [if_pos h]
+      rcases h with h | ⟨rfl, rfl, rfl⟩
+      · simp [saveF, codecOf, codecs, saveBlue3, E.eval, Px.env, h, R, G, B, A]
+      · by_cases h' : a < 128 <;>
+          simp [saveF, codecOf, codecs, saveBlue3, E.eval, Px.env, h', R, G, B, A]
+    · rw [if_neg h]
+      have h' : ¬ a < 128 := fun x => h (.inl x)
+      simp [saveF, codecOf, codecs, saveBlue3, E.eval, Px.env, h', R, G, B, A]
+  · cases p; rfl
+  · cases p; rfl
+  · cases p; rfl
+  · exact idem_of_same (codecOf 18) (by decide) (by decide +kernel) p hp
+  · exact idem_of_same (codecOf 19) (by decide) (by decide +kernel) p hp
+  · -- BGRA5551: its bytes are bytes, and every word is a fixed point
+    have hlt := saveF_lt (codecOf 21) (by decide +kernel) p hp
+    have hlen : saveF (codecOf 21) p = [(saveF (codecOf 21) p).getD 0 0, (saveF (codecOf 21) p).getD 1 0] := rfl
+    rw [hlen]
+    apply C15_words_bgra5551
+    · exact hlt _ (by rw [hlen]; simp)
+    · exact hlt _ (by rw [hlen]; simp)
+  · cases p; rfl
+  · cases p; rfl
+  · cases p; rfl
+
+/-! ## The quantisation in arithmetic terms -/
+
+/-- `q5/q6/q4` keep the top 5/6/4 bits and replicate the leading bits below them; `q1` is a
+threshold at 128. Consequently the stored value differs from the original by less than one step
+of the reduced precision, and values are bytes. -/
+theorem C15_quant_arith : ∀ x, x < 256 →
+    q5 x = x / 8 * 8 + x / 32 ∧ q6 x = x / 4 * 4 + x / 64 ∧ q4 x = x / 16 * 16 + x / 16 ∧
+    q1 x = (if x ≥ 128 then 255 else 0) ∧
+    q5 x / 8 = x / 8 ∧ q6 x / 4 = x / 4 ∧ q4 x / 16 = x / 16 ∧
+    q5 x < 256 ∧ q6 x < 256 ∧ q4 x < 256 ∧
+    q5 (q5 x) = q5 x ∧ q6 (q6 x) = q6 x ∧ q4 (q4 x) = q4 x ∧ q1 (q1 x) = q1 x := by
+  decide +kernel
+
+/-- The quantisation of a pixel with byte channels has byte channels. -/
+theorem C15_quant_valid (i : Nat) (hi : i ∈ writableInds) (p : Px) (hp : p.valid) : (quant i p).valid := by
+  obtain ⟨r, g, b, a⟩ := p
+  obtain ⟨hr, hg, hb, ha⟩ := hp
+  dsimp only at hr hg hb ha
+  have Q := C15_quant_arith
+  have hgrey : (r + g + b) / 3 < 256 := by omega
+  have r5 := (Q r hr).2.2.2.2.2.2.2.1
+  have g5 := (Q g hg).2.2.2.2.2.2.2.1
+  have b5 := (Q b hb).2.2.2.2.2.2.2.1
+  have g6 := (Q g hg).2.2.2.2.2.2.2.2.1
+  have r4 := (Q r hr).2.2.2.2.2.2.2.2.2.1
+  have g4 := (Q g hg).2.2.2.2.2.2.2.2.2.1
+  have b4 := (Q b hb).2.2.2.2.2.2.2.2.2.1
+  have a4 := (Q a ha).2.2.2.2.2.2.2.2.2.1
+  have a1 : q1 a < 256 := by simp only [q1]; split <;> omega
+  simp only [writableInds, List.mem_cons, List.mem_nil_iff, or_false] at hi
+  rcases hi with rfl | rfl | rfl | rfl | rfl | rfl | rfl | rfl | rfl | rfl | rfl | rfl | rfl | rfl |
+    rfl | rfl | rfl | rfl | rfl | rfl
+  all_goals
+    simp only [quant, greyOf, Nat.reduceEqDiff, or_self, or_false, or_true, if_true, if_false]
+  all_goals try split
+  all_goals (refine ⟨?_, ?_, ?_, ?_⟩ <;> dsimp only <;> first | assumption | omega)
+
+/-! ## RGB565 / BGR565: what the code does, why the law fails, and that the repair is right -/
+
+/-- RGB565 and BGR565 **as coded**: `load (save p)` keeps the top 5/6/5 bits, but red and blue
+come back exchanged (`compress565` and `decomp565` disagree on where the first component lives). -/
+theorem C15_565_as_coded (i : Nat) (hi : i = 4 ∨ i = 17) (p : Px) (hp : p.valid) :
+    loadF (codecOf i) (saveF (codecOf i) p) = ⟨q5 p.b, q6 p.g, q5 p.r, 255⟩ := by
+  rcases hi with rfl | rfl
+  · exact quant_of_same (codecOf 4) qE565swapped (by decide +kernel) p hp
+  · exact quant_of_same (codecOf 17) qE565swapped (by decide +kernel) p hp
+
+/-- **The full round-trip statement is false for RGB565 / BGR565** (open finding `codec-RGB565`,
+`codec-BGR565`): pure red is read back as pure blue, and storing that again changes the data. -/
+theorem C15_565_defect (i : Nat) (hi : i = 4 ∨ i = 17) :
+    ∃ p : Px, p.valid ∧ loadF (codecOf i) (saveF (codecOf i) p) ≠ quant i p ∧
+      saveF (codecOf i) (loadF (codecOf i) (saveF (codecOf i) p)) ≠ saveF (codecOf i) p := by
+  rcases hi with rfl | rfl <;> exact ⟨⟨255, 0, 0, 255⟩, by decide, by decide, by decide⟩
+
+/-- Strongest true statement for the code as it is: the law holds on pixels whose red and blue agree
+in their top five bits (the excluded class of the finding is `p.r / 8 ≠ p.b / 8`). -/
+theorem C15_quant_565_partial (i : Nat) (hi : i = 4 ∨ i = 17) (p : Px) (hp : p.valid)
+    (hrb : p.r / 8 = p.b / 8) :
+    loadF (codecOf i) (saveF (codecOf i) p) = quant i p := by
+  rw [C15_565_as_coded i hi p hp]
+  have hq : quant i p = ⟨q5 p.r, q6 p.g, q5 p.b, 255⟩ := by rcases hi with rfl | rfl <;> rfl
+  rw [hq]
+  have e : q5 p.r = q5 p.b := by
+    have hr := (C15_quant_arith p.r hp.1).1
+    have hb := (C15_quant_arith p.b hp.2.2.1).1
+    omega
+  rw [e]
+
+/-- With the encoder that agrees with `decomp565` (the patch `fixes/C15-compress565-channel-order`,
+which reproduces VTFEdit's bytes but is blocked by the repository's reference files) the full law
+holds: quantisation to 5/6/5 bits, every word a fixed point, re-saving changes nothing. -/
+theorem C15_565_repaired (c : Codec) (hc : c = fixedRGB565 ∨ c = fixedBGR565) (p : Px) (hp : p.valid)
+    (x y : Nat) (hx : x < 256) (hy : y < 256) :
+    loadF c (saveF c p) = ⟨q5 p.r, q6 p.g, q5 p.b, 255⟩ ∧ saveF c (loadF c [x, y]) = [x, y] ∧
+    saveF c (loadF c (saveF c p)) = saveF c p := by
+  have hb : ∀ b ∈ [x, y], b < 256 := by simp [hx, hy]
+  rcases hc with rfl | rfl
+  · exact ⟨quant_of_same fixedRGB565 qE565 (by decide +kernel) p hp,
+      words_of_same fixedRGB565 [.var 0, .var 1] (by decide) (by decide +kernel) [x, y] hb,
+      idem_of_same fixedRGB565 (by decide) (by decide +kernel) p hp⟩
+  · exact ⟨quant_of_same fixedBGR565 qE565 (by decide +kernel) p hp,
+      words_of_same fixedBGR565 [.var 0, .var 1] (by decide) (by decide +kernel) [x, y] hb,
+      idem_of_same fixedBGR565 (by decide) (by decide +kernel) p hp⟩
 
 end C15
